@@ -9,12 +9,16 @@ Per manifest file the replica state is `(final, part)`: the bytes at the final p
 `<path>.part` (`none` = file absent).  The hash is an abstract function `H`; nothing in the model
 assumes anything about it (collision-freeness is a *hypothesis* of the theorems that need it).
 
-Three code facts are parameters (`Facts`) and are REGENERATED from the source by
+Four code facts are parameters (`Facts`) and are REGENERATED from the source by
 `go/factgen/cmd/c25` (`Arc.Generated.C25.facts`):
 * `statPartFallback`   — `StatFile` reports the size of `<path>.part` when the final file is absent;
 * `deleteRemovesPart`  — `Delete(path)` also removes `<path>.part`;
 * `presenceNeedsFinal` — the "already present" shortcut of `processEntry` additionally requires the
-  final file itself to exist.
+  final file itself to exist;
+* `promoteAfterVerdict` — `WriteReader` renames `.part` onto the final path only after `io.Copy` on
+  the caller's (un-limited) reader returned nil, i.e. after the clean EOF that `pullOnce` delivers
+  only once `Fetch` has returned its SHA-256 verdict.  (`false` = the copy is bounded by the declared
+  size, so the rename happens as soon as that many bytes arrived — before the verdict.)
 
 Core-only, executable.  Bytes are `Nat`s (the driver feeds values < 256).
 -/
@@ -26,10 +30,11 @@ structure Facts where
   statPartFallback   : Bool
   deleteRemovesPart  : Bool
   presenceNeedsFinal : Bool
+  promoteAfterVerdict : Bool
 deriving DecidableEq, Repr
 
 /-- the tree as of round 1 (before any repair) -/
-def Facts.current : Facts := ⟨true, false, false⟩
+def Facts.current : Facts := ⟨true, false, false, true⟩
 
 /-- replica-side files of one manifest path -/
 structure Rep where
@@ -121,10 +126,15 @@ def resumePrefix (f : Facts) (size : Nat) (r : Rep) : Bytes :=
 
 /-- the write goroutine (`writeFileTail`): `WriteReader` (offset 0: create/truncate `.part`, stream,
 rename on clean EOF) or `AppendReader` (offset > 0: append to the existing `.part`, rename when the
-whole tail arrived).  A clean EOF is delivered exactly when `Fetch` returned nil. -/
-def afterWrite (r : Rep) (pre : Bytes) (fr : FetchRes) : Rep :=
+whole tail arrived).  A clean EOF is delivered exactly when `Fetch` returned nil.  Step order of
+`WriteReader`: with `promoteAfterVerdict` the rename waits for that clean EOF; without it the copy
+stops — and the rename happens — as soon as the declared `size > 0` bytes have arrived, whatever
+verdict `Fetch` is about to deliver. -/
+def afterWrite (f : Facts) (size : Nat) (r : Rep) (pre : Bytes) (fr : FetchRes) : Rep :=
   if pre.length = 0 then
     if fr.err = .ok then { final := some fr.sent, part := none }
+    else if f.promoteAfterVerdict = false ∧ 0 < size ∧ size ≤ fr.sent.length then
+      { final := some (fr.sent.take size), part := none }
     else { final := r.final, part := some fr.sent }
   else
     match r.part with
@@ -137,6 +147,7 @@ structure PullOut where
   rep : Rep
   err : FErr
   off : Nat
+  mid : Rep      -- replica files when the write goroutine has finished, before any cleanup `Delete`
 deriving Repr
 
 section
@@ -147,9 +158,9 @@ def pullOnce (f : Facts) (content : Bytes) (resume : Bool) (r : Rep) (o : Outcom
   let pre := if resume then resumePrefix f content.length r else []
   let broken := decide (pre.length ≠ 0) && r.part.isNone
   let fr := fetch H content pre broken o
-  let r1 := afterWrite r pre fr
+  let r1 := afterWrite f content.length r pre fr
   let r2 := if fr.err = .checksum ∨ fr.err = .badOffset then delete f r1 else r1
-  ⟨r2, fr.err, pre.length⟩
+  ⟨r2, fr.err, pre.length, r1⟩
 end
 
 structure Counters where
@@ -186,6 +197,16 @@ def peersLoop (f : Facts) (content : Bytes) (resume : Bool) :
     else
       let rest := peersLoop f content resume po.rep c' os
       (rest.1, rest.2.1, rest.2.2.1, po.off :: rest.2.2.2)
+/-- what a cleanup `Delete` finds at the final path, one entry per `Delete` call of the peer loop
+(observable in the harness through a wrapping backend; used by the driver only) -/
+def peersDels (f : Facts) (content : Bytes) (resume : Bool) : Rep → List Outcome → List (Option Bytes)
+  | _, [] => []
+  | r, o :: os =>
+    let po := pullOnce H f content resume r o
+    if po.err = .ok then []
+    else if po.err = .checksum then [po.mid.final]
+    else if po.err = .badOffset then po.mid.final :: peersDels f content resume po.rep os
+    else peersDels f content resume po.rep os
 end
 
 /-- how a `processEntry` call stands -/
